@@ -95,6 +95,7 @@ func SwarmConfig(p *PRNG, o SwarmOpts) Config {
 	c.BlockMaxGas = -1
 	c.BlockSec = int64(p.Range(1, 8))
 	c.ProposerAny = p.Chance(1, 8)
+	c.HugeAmounts = p.Chance(1, 8)
 	return c
 }
 
